@@ -425,6 +425,8 @@ def generate(seed, tier):
                 bits = "".join(r.choice("01") for _ in range(5))
                 if valid_bits(fam, bits) and (bits != "00000" or fam != "plainopt"):
                     break
+            else:
+                bits = "00100"      # always a valid combination
         cfg = {}
         if fam in ("eval", "csemix_eval"):
             cfg["vars"] = {v: ["fr", r.randint(-5, 9), r.choice([1, 1, 2, 3])]
